@@ -111,6 +111,28 @@ PROPS = {
         level_note='Trusted in addition: the Gumbel-max identity linking the extracted noise law (standard right-skewed Gumbel) to the '
                    'categorical branch law; SciPy rvs implement the laws they name; the finite-sample decision has family-wise error '
                    '< 1e-9 per run. Lean kernel, Mathlib, translator, harness, driver as for the other checks.',
+    ),    'C15': dict(
+        module='c15',
+        modules=['DeeprobModel.Props.C15'],
+        theorems=['Deeprob.Flows.masks_strictly_autoregressive', 'Deeprob.Flows.masks_strictly_autoregressive_sequential',
+                  'Deeprob.Flows.masks_strictly_autoregressive_random', 'Deeprob.Flows.made_output_depends_only_on_smaller_degree',
+                  'Deeprob.Flows.dependency_strictly_lower_triangular', 'Deeprob.Flows.maf_forward_backward', 'Deeprob.Flows.maf_backward_forward',
+                  'Deeprob.Flows.maf_ldj_antisymm', 'Deeprob.Flows.masks_complementary', 'Deeprob.Flows.coupling_inverse', 'Deeprob.Flows.coupling_inverse_channelwise',
+                  'Deeprob.Flows.coupling_ldj', 'Deeprob.Flows.coupling_ldj_antisymm', 'Deeprob.Flows.det_triangular_by_degree', 'Deeprob.Flows.maf_ldj_is_logdet',
+                  'Deeprob.Flows.coupling_ldj_is_logdet', 'Deeprob.Flows.compose_logdet', 'Deeprob.Flows.squeeze_unsqueeze', 'Deeprob.Flows.unsqueeze_squeeze',
+                  'Deeprob.Flows.squeeze_bijective', 'Deeprob.Flows.permMatrix_is_permutation', 'Deeprob.Flows.convT_inverts_conv', 'Deeprob.Flows.multiscale_inverse',
+                  'Deeprob.Flows.bn_inverse', 'Deeprob.Flows.bn_ldj_antisymm', 'Deeprob.Flows.logit_inverse', 'Deeprob.Flows.logit_ldj_antisymm',
+                  'Deeprob.Flows.compose_inverse', 'Deeprob.Flows.compose_ldj', 'Deeprob.Flows.flow_log_prob'],
+        fragments=[],
+        rule='exact: MADE degrees / masks / inverse orderings / dependency matrices (sequential and random orderings), squeeze and '
+             'unsqueeze index maps, coupling masks, permutation matrices vs the model; numeric (float64, 1e-6): round trips both ways, '
+             'forward/backward log-det antisymmetry, autograd Jacobian slogdet vs reported log-det, log_prob vs change of variables '
+             'for coupling / autoregressive layers and MAF, RealNVP1d, RealNVP2d (resnet, densenet; batch-norm, affine / additive, '
+             'logit) with parameters and running statistics randomised after construction; non-trivial = every configuration; '
+             'distinct = distinct configuration',
+        level_note='Trusted in addition: derivatives of element-wise functions (the Jacobian theorems are stated for any matrix with the '
+                   'proved sparsity pattern and diagonal), PyTorch autograd as the numeric oracle. Lean kernel, Mathlib, harness, driver '
+                   'as for the other checks.',
     ),
 }
 
